@@ -101,8 +101,20 @@ def correctWholeAt (O : Ops) (fast : Bool) (thr : Nat) (kOf : Nat → Nat) (hash
 
 /-! ## one entry -/
 
-/-- process the entry whose content occupies `[a, b)` of the ecc file -/
-def processEntry (O : Ops) (P : Params) (fs : FS) (stream : Bytes) (a b : Nat) : EntryOutcome :=
+/-- what the loop knows about an entry before touching its ecc track -/
+structure Located where
+  path          : Bytes
+  /-- the fields as split by `entry_fields` -/
+  fields        : Fields
+  /-- the entry content after leading delimiters were stripped -/
+  body          : Bytes
+  /-- absolute position of the ecc track in the ecc file (clamped to the end of the entry) -/
+  trackStartAbs : Nat
+  /-- recorded size and current content of the file to process; `none` = the entry is skipped -/
+  target        : Option (Int × Bytes)
+
+/-- scanner result `[a, b)` → fields, intra-ecc of path and size, lenient `int()`, file lookup, size check -/
+def locate (O : Ops) (P : Params) (fs : FS) (stream : Bytes) (a b : Nat) : Located :=
   -- header tool: the whole entry content; whole tool: `file.read(min(65535, end - start))`
   let e0 := match P.tool with
     | .header => (stream.drop a).take (b - a)
@@ -114,37 +126,56 @@ def processEntry (O : Ops) (P : Params) (fs : FS) (stream : Bytes) (a b : Nat) :
     | .whole => correctIntraWhole O P.kIntra P.mbs fld ecc
   let path := (intra f.path f.pathEcc).field
   let sizeTxt := (intra f.sizeRaw f.sizeEcc).field
-  -- cursor when the entry is skipped: header tool = end of the entry (content mode already read it);
-  -- whole tool = start of the ecc track as computed by entry_fields (clamped to the end of the entry)
-  let trackStartAbs : Nat := min (a + f.stripped + f.trackOff.toNat) b
-  let skipCursor := match P.tool with | .header => b | .whole => trackStartAbs
-  let skip : EntryOutcome :=
-    { path := path, skipped := true, processed := false,
+  let target : Option (Int × Bytes) :=
+    match pyInt sizeTxt with
+    | none => none
+    | some size =>
+      if path.contains 0 then none
+      else match fsLookup fs path with
+        | none => none
+        | some content => if size ≠ (content.length : Int) && !P.ignoreSize then none else some (size, content)
+  { path := path, fields := f, body := e,
+    trackStartAbs := min (a + f.stripped + f.trackOff.toNat) b, target := target }
+
+/-- process the entry whose content occupies `[a, b)` of the ecc file -/
+def processEntry (O : Ops) (P : Params) (fs : FS) (stream : Bytes) (a b : Nat) : EntryOutcome :=
+  let L := locate O P fs stream a b
+  match L.target with
+  | none =>
+    -- cursor when the entry is skipped: header tool = end of the entry (content mode already read it);
+    -- whole tool = start of the ecc track as computed by entry_fields (clamped to the end of the entry)
+    { path := L.path, skipped := true, processed := false,
       result := { output := none, corrupted := false, complete := false, partialRep := false },
-      effect := .none, cursor := skipCursor }
-  match pyInt sizeTxt with
-  | none => skip
-  | some size =>
-    if path.contains 0 then skip
-    else match fsLookup fs path with
-      | none => skip
-      | some content =>
-        if size ≠ (content.length : Int) && !P.ignoreSize then skip
-        else
-          match P.tool with
-          | .header =>
-            let track := pyFrom e f.trackOff
-            let readLen := if 0 < size ∧ size < (P.headerSize : Int) then size.toNat else P.headerSize
-            let r := correctHeaderFile O P.fast P.thr P.kMain P.hashLen P.mbs readLen content track
-            { path := path, skipped := false, processed := true, result := r,
-              effect := match r.output with | some o => .wrote o | none => .none, cursor := b }
-          | .whole =>
-            let (r, cur) := correctWholeAt O P.fast P.thr (P.kOfFor size.toNat) P.hashLen P.mbs content stream trackStartAbs b
-            { path := path, skipped := false, processed := true, result := r,
-              effect := match r.output with
-                | some o => .wrote o
-                | none => if r.corrupted then .removed else .none,
-              cursor := cur }
+      effect := .none, cursor := match P.tool with | .header => b | .whole => L.trackStartAbs }
+  | some (size, content) =>
+    match P.tool with
+    | .header =>
+      let track := pyFrom L.body L.fields.trackOff
+      let readLen := if 0 < size ∧ size < (P.headerSize : Int) then size.toNat else P.headerSize
+      let r := correctHeaderFile O P.fast P.thr P.kMain P.hashLen P.mbs readLen content track
+      { path := L.path, skipped := false, processed := true, result := r,
+        effect := match r.output with | some o => .wrote o | none => .none, cursor := b }
+    | .whole =>
+      let rc := correctWholeAt O P.fast P.thr (P.kOfFor size.toNat) P.hashLen P.mbs content stream L.trackStartAbs b
+      { path := L.path, skipped := false, processed := true, result := rc.1,
+        effect := match rc.1.output with
+          | some o => .wrote o
+          | none => if rc.1.corrupted then .removed else .none,
+        cursor := rc.2 }
+
+/-- the reads of the ecc track of this entry stay inside the entry (always so for the header tool, which works on the entry's bytes; for the
+whole-file tool: the track is not shorter than the blocks of the file require) -/
+def readsInside (O : Ops) (P : Params) (fs : FS) (stream : Bytes) (a b : Nat) : Prop :=
+  match P.tool, (locate O P fs stream a b).target with
+  | .header, _ => True
+  | .whole, none => True
+  | .whole, some (size, content) =>
+    ∀ bp ∈ assembleAt (P.kOfFor size.toNat) P.hashLen P.mbs content stream b (content.length + 1) 0
+        (locate O P fs stream a b).trackStartAbs, bp.2 ≤ b
+
+/-- an outcome without the position of the cursor -/
+def view (o : EntryOutcome) : Bytes × Bool × Bool × FileResult × Effect :=
+  (o.path, o.skipped, o.processed, o.result, o.effect)
 
 /-! ## the run -/
 
@@ -185,5 +216,25 @@ def outputs (r : RunResult) : FS :=
     | .none => out
     | .wrote b => (o.path, b) :: out.filter (fun e => e.1 != o.path)
     | .removed => out.filter (fun e => e.1 != o.path)) []
+
+/-! ## generation (`-g`): the ecc file written for a list of files -/
+
+/-- the ecc track generated for one file -/
+def genTrackFor (O : Ops) (P : Params) (content : Bytes) : Bytes :=
+  match P.tool with
+  | .header => genTrackHeader O.H O.enc P.kMain P.headerSize content
+  | .whole => genTrack O.H O.enc (P.kOfFor content.length) content
+
+/-- the entry (without its marker) of a file with the given track -/
+def bodyWith (O : Ops) (P : Params) (path content track : Bytes) : Bytes :=
+  (genEntry (partsOf O P.kIntra path content track)).drop marker.length
+
+/-- the entry (without its marker) generated for one file -/
+def genBody (O : Ops) (P : Params) (path content : Bytes) : Bytes :=
+  bodyWith O P path content (genTrackFor O P content)
+
+/-- the ecc file generated for the files `fs` -/
+def genStream (O : Ops) (P : Params) (pre : Bytes) (fs : FS) : Bytes :=
+  build pre marker (fs.map (fun pc => genBody O P pc.1 pc.2))
 
 end Pff.Run
